@@ -1376,14 +1376,19 @@ impl VM {
         O: std::io::Write + Clone,
         E: std::io::Write + Clone,
     {
-        self.runtime.handle(
-            self.ops.path.as_ref(),
-            h,
-            &mut self.stack,
-            env,
-            &mut self.import_stack,
-            pos,
-        )
+        let hook_pos = pos.clone();
+        self.runtime
+            .handle(
+                self.ops.path.as_ref(),
+                h,
+                &mut self.stack,
+                env,
+                &mut self.import_stack,
+                pos,
+            )
+            // An error converted from a library error (io, regex) has no
+            // position of its own, it happened at this operation.
+            .map_err(|e| e.or_pos(hook_pos))
     }
 
     fn op_render(&mut self) -> Result<(), Error> {
